@@ -78,7 +78,14 @@ fn count_marker(toks: &[Tok], m: &str) -> usize {
 }
 
 const ENABLED_CFG: [&str; 2] = ["#[cfg(all())]", "#[cfg(not(any()))]"];
-const DISABLED_CFG: [&str; 2] = ["#[cfg(any())]", "#[cfg(not(all()))]"];
+// (a `cfg` inside an always-true `cfg_attr` disables the fn just the same)
+const DISABLED_CFG: [&str; 4] = ["#[cfg(any())]", "#[cfg(not(all()))]", "#[cfg_attr(all(), cfg(any()))]", "#[cfg_attr(not(any()), inline, cfg(not(all())), doc = \"off\")]"];
+
+/// the attribute carries one of the disabling `cfg`s above (as written, or reduced to its `cfg` part)
+fn is_disabling(a: &syn::Attribute) -> bool {
+    let s: String = a.to_token_stream().to_string().chars().filter(|c| !c.is_whitespace()).collect();
+    (a.path().is_ident("cfg") || a.path().is_ident("cfg_attr")) && (s.contains("cfg(any())") || s.contains("cfg(not(all()))"))
+}
 
 fn decorate_fn(t: &mut Tape, mk: &mut Markers, f: &mut gen::FnSrc, allow_disabled: bool, disabled: &mut Vec<String>) {
     f.attrs = mk.some(t, 3);
@@ -93,7 +100,7 @@ fn decorate_fn(t: &mut Tape, mk: &mut Markers, f: &mut gen::FnSrc, allow_disable
         }
         _ => {
             let pos = t.choose(f.attrs.len() + 1);
-            f.attrs.insert(pos, DISABLED_CFG[t.choose(2)].to_string());
+            f.attrs.insert(pos, DISABLED_CFG[t.weighted(&[3, 3, 2, 2])].to_string());
             disabled.push(f.name.clone());
         }
     }
@@ -186,7 +193,7 @@ pub fn gen_case(t: &mut Tape, allow_disabled_cfg: bool) -> Case {
                     mk.once.truncate(before);
                     if t.chance(1, 4) {
                         let pos = t.choose(m.attrs.len() + 1);
-                        let c = if t.flip() { ENABLED_CFG[t.choose(2)] } else { DISABLED_CFG[t.choose(2)] };
+                        let c = if t.flip() { ENABLED_CFG[t.choose(2)] } else { DISABLED_CFG[t.weighted(&[3, 3, 2, 2])] };
                         m.attrs.insert(pos, c.to_string());
                     }
                     mirrored.push(m.name.clone());
@@ -319,7 +326,7 @@ pub fn check(c: &Case) -> Result<&'static str, String> {
             for name in &c.cfg_disabled_fns {
                 for (place, mname, attrs) in &gen_methods {
                     if mname == name {
-                        let gated = attrs.iter().any(|a| is_cfg(a) && DISABLED_CFG.iter().any(|d| tok::toks_of_src(d).ok() == Some(tok::toks(a.to_token_stream()))));
+                        let gated = attrs.iter().any(is_disabling);
                         if !gated {
                             return Err(format!(
                                 "fn `{name}` is cfg-disabled but {place} still has an ungated method `{name}` (dangling: it calls a fn that does not exist)"
@@ -437,10 +444,12 @@ fn e2_case(t: &mut Tape, feature_unimock: bool) -> (String, String) {
         let k = members.len() - 1;
         members[k].1 = false;
     }
-    let cfg_off = |t: &mut Tape| DISABLED_CFG[t.choose(2)];
-    let cfg_on = |t: &mut Tape| if t.chance(1, 3) { ENABLED_CFG[t.choose(2)] } else { "" };
     let mode = t.choose(4); // mod, impl static, impl dyn, trait
     let mocks = feature_unimock && t.flip();
+    // (don't-care: with a mock derivation on the trait, a `cfg` inside `cfg_attr` is the mock library's to understand -
+    // unimock's derive only looks at plain `cfg` attributes of the methods - so those spellings are used without mocks only)
+    let cfg_off = move |t: &mut Tape| DISABLED_CFG[if mocks { t.weighted(&[3, 3, 0, 0]) } else { t.weighted(&[3, 3, 2, 2]) }];
+    let cfg_on = |t: &mut Tape| if t.chance(1, 3) { ENABLED_CFG[t.choose(2)] } else { "" };
     let mut src = String::from("#![allow(warnings)]\nuse crate::rt;\npub struct App;\n");
     let mut run = String::from("pub fn run() -> Vec<String> {\n    let mut fails = vec![];\n    let app = ::entrait::Impl::new(App);\n");
     let mut summary = String::new();
